@@ -64,12 +64,13 @@ Named == <<
    >>
 \* all orders of the four structural columns of a named program (slack columns stay last)
 Perms4 == {p \in [1 .. 4 -> 1 .. 4] : \A i, j \in 1 .. 4 : i # j => p[i] # p[j]}
-NamedProgram(q, p) ==
+\* lay = 1: slack columns last (as written above); lay = 2: slack columns first
+NamedProgram(q, p, lay) ==
     LET P == Named[q]
-        col(j) == IF j <= 4 THEN p[j] ELSE j
+        col(j) == IF lay = 1 THEN (IF j <= 4 THEN p[j] ELSE j) ELSE (IF j <= 3 THEN j + 4 ELSE p[j - 3])
     IN [A |-> [i \in 1 .. 3 |-> [j \in 1 .. 7 |-> P.A[i][col(j)]]], b |-> P.b,
         c |-> [j \in 1 .. 7 |-> P.c[col(j)]]]
-ASSUME Mode = "named" => (M = 3 /\ N = 7 /\ Count = 24 * Len(Named))
+ASSUME Mode = "named" => (M = 3 /\ N = 7 /\ Count = 48 * Len(Named))
 
 (********************************* programs ************************************)
 Program(k) ==
@@ -109,8 +110,8 @@ Indices == {Shard + NShards * t : t \in 0 .. ((Count - 1 - Shard) \div NShards)}
 
 VARIABLE st
 Init == IF Mode = "named"
-        THEN \E q \in 1 .. Len(Named), p \in Perms4 :
-                st = Analyse(q * 10000 + p[1] * 1000 + p[2] * 100 + p[3] * 10 + p[4], NamedProgram(q, p))
+        THEN \E q \in 1 .. Len(Named), p \in Perms4, lay \in 1 .. 2 :
+                st = Analyse(lay * 100000 + q * 10000 + p[1] * 1000 + p[2] * 100 + p[3] * 10 + p[4], NamedProgram(q, p, lay))
         ELSE \E k \in Indices : st = Analyse(k, Program(k))
 Next == UNCHANGED st
 Spec == Init /\ [][Next]_st
